@@ -146,6 +146,7 @@ func Check(w *symex.World, plan *Plan, opt Options) int {
 			perJob = 4
 		}
 	}
+	tNat := time.Now()
 	xvRuns, xvJobs := xvPrepare(results, opt, perJob)
 	if len(natJobs)+len(xvJobs) > 0 && !opt.NoReplay {
 		var err error
@@ -154,10 +155,15 @@ func Check(w *symex.World, plan *Plan, opt Options) int {
 			incon = append(incon, "native replay: "+err.Error()+"\n"+tail(natLog, 30))
 		}
 	}
+	natDur := time.Since(tNat)
+	tXv := time.Now()
 	var xv xvOutcome
 	if nat != nil {
 		xv = xvEvaluate(w, results, xvRuns, nat, known)
 		incon = append(incon, xv.incon...)
+	}
+	if opt.Verbose {
+		fmt.Printf("TIMING symbolic=%.1fs native=%.1fs crossval-interp=%.1fs\n", tNat.Sub(t0).Seconds(), natDur.Seconds(), time.Since(tXv).Seconds())
 	}
 	violations := 0
 	knownPrinted := map[string]bool{}
